@@ -136,6 +136,7 @@ fn loop_program(c: &LoopCase) -> Program {
     }];
     if let Some(m) = c.inner {
         body.push(Node::Scope {
+            hooks: None,
             id: 10,
             body: vec![Node::While {
                 id: 11,
@@ -150,7 +151,7 @@ fn loop_program(c: &LoopCase) -> Program {
         body,
     };
     for i in 0..c.scopes {
-        node = Node::Scope { id: 20 + i, body: vec![node] };
+        node = Node::Scope { id: 20 + i, body: vec![node], hooks: None };
     }
     Program { root: vec![node], log_rules: None, pre_ops: vec![] }
 }
